@@ -72,6 +72,6 @@ def handle (req : Json) : Json :=
         Json.mkObj [("infer", enc (traverse g 64 b.root a () [])),
                     ("detect", enc (traverse g.base 64 b.root a () []))])
   Json.mkObj [("contains", Json.mkObj cont), ("rels", Json.arr relJ.toArray), ("trav", Json.arr trav.toArray),
-    ("good", Json.bool (Np.goodB o a))]
+    ("good", Json.bool (Np.goodB o a)), ("guardsOk", Json.bool (Np.guardsOkNB o a))]
 
 end NpDrv
